@@ -360,14 +360,106 @@ Section Reach.
     - apply acklog_ok_empty; exact Lg.
   Qed.
 
-  Theorem reachable_all_inv ops s :
-    fresh s -> ops_noself (st_name s) ops -> all_inv (run P s ops).
+  Theorem reachable_all_inv ops s : fresh s -> all_inv (run P s ops).
   Proof.
-    intros F NS. destruct (fresh_all_inv _ F) as (I4 & I5 & L & AL).
+    intros F. destruct (fresh_all_inv _ F) as (I4 & I5 & L & AL).
     split; [|split; [|split]].
-    - exact (proj1 (G_run P KO Sh ops s I4 NS)).
+    - exact (proj1 (G_run P KO Sh ops s I4)).
     - exact (proj1 (run_inv5 P KO Sh ops s I5)).
     - exact (run_log_ok P KO ops s L).
-    - exact (acklog_run P KO Sh ops s I4 NS AL).
+    - exact (acklog_run P KO Sh ops s I4 AL).
   Qed.
 End Reach.
+
+(** ** [noself] — no client under the chain's own name — is an invariant of EVERY history, with no other hypothesis
+    (since fix a9e74e1: HandleCreateClient refuses the own name; ToggleClient and UpgradeClient need an existing client;
+    no message handler touches the client table or the chain name) *)
+Section NoSelf.
+  Variable P : params.
+
+  Definition cn_same (a b : cstate) : Prop := st_name b = st_name a /\ st_clients b = st_clients a.
+  Lemma cn_refl a : cn_same a a. Proof. split; reflexivity. Qed.
+  Lemma cn_trans a b c : cn_same a b -> cn_same b c -> cn_same a c.
+  Proof. intros [A1 A2] [B1 B2]. split; congruence. Qed.
+
+  Lemma cn_send s p ok s' : send_packet P s p ok = Ok s' -> cn_same s s'.
+  Proof. intro H. apply send_packet_ok in H as (_ & _ & _ & _ & _ & bz & _ & ->). split; reflexivity. Qed.
+
+  Lemma cn_call s e cb s' : call_packet P s e cb = Ok s' -> cn_same s s'.
+  Proof.
+    apply (call_packet_rel P cn_same cn_refl cn_trans); [intros; eapply cn_send; eauto | intros; split; reflexivity].
+  Qed.
+
+  Lemma cn_hook l s s' : hook_sends P s l = Ok s' -> cn_same s s'.
+  Proof. apply (hook_sends_rel P cn_same cn_refl cn_trans). intros; eapply cn_send; eauto. Qed.
+
+  Lemma cn_write_ack s p bz s' : write_ack P s p bz = Ok s' -> cn_same s s'.
+  Proof. intro H. apply write_ack_ok in H as (_ & _ & _ & ->). split; reflexivity. Qed.
+
+  Lemma cn_recv_handler env s m cb s' : recv_handler P env s m cb = Ok s' -> cn_same s s'.
+  Proof.
+    intro H. apply recv_handler_ok in H. cbv zeta in H. destruct H as (s1 & relayer & RK & _ & _ & Hc).
+    assert (C1 : cn_same s s1).
+    { pose proof (recv_keeper_ok P _ _ _ _ RK) as X. cbv zeta in X.
+      destruct X as (_ & _ & _ & ct & bz & _ & _ & _ & Es1). rewrite Es1. destruct (recv_relay _ _); split; reflexivity. }
+    eapply cn_trans; [exact C1|].
+    destruct Hc as [(_ & s3 & a & bz & _ & WA & Hcb) | [(_ & _ & bz & _ & WA) | (_ & _ & ->)]].
+    - eapply cn_trans; [|eapply cn_write_ack; exact WA].
+      destruct Hcb as [(_ & -> & _) | (s2 & code & res & msg & CP & _ & _ & ->)]; [apply cn_refl|].
+      destruct (code =? 0); [eapply cn_call; exact CP | apply cn_refl].
+    - eapply cn_write_ack; exact WA.
+    - apply cn_refl.
+  Qed.
+
+  Lemma cn_ack_handler env s m cb1 cb2 cb3 s' : ack_handler P env s m cb1 cb2 cb3 = Ok s' -> cn_same s s'.
+  Proof.
+    intro H. apply ack_handler_ok in H. cbv zeta in H. destruct H as (s1 & a & AK & _ & _ & Hc).
+    assert (C1 : cn_same s s1).
+    { pose proof (ack_keeper_ok P _ _ _ _ AK) as X. cbv zeta in X.
+      destruct X as (_ & _ & bz & ct & _ & _ & _ & _ & [[_ Es1] | (_ & _ & Es1)]); rewrite Es1; split; reflexivity. }
+    eapply cn_trans; [exact C1|].
+    destruct Hc as [(_ & ->) | (_ & s2 & s3 & r & addr & C1' & _ & _ & C2 & C3)]; [apply cn_refl|].
+    eapply cn_trans; [eapply cn_call; exact C1'|]. eapply cn_trans; [eapply cn_call; exact C2 | eapply cn_call; exact C3].
+  Qed.
+
+  Lemma noself_cn s s' : cn_same s s' -> noself s -> noself s'.
+  Proof. intros [A B] N. unfold noself. rewrite A, B. exact N. Qed.
+
+  Lemma exec_noself env s a s' : noself s -> exec P env s a = Ok s' -> noself s'.
+  Proof.
+    intro N.
+    destruct a as [m cb|m cb1 cb2 cb3|cb|name ok| |name c ok|name c ok|addr chains addrs|name c ok]; cbn [exec]; intro H.
+    - eapply noself_cn; [eapply cn_recv_handler; exact H | exact N].
+    - eapply noself_cn; [eapply cn_ack_handler; exact H | exact N].
+    - destruct (cb_fail cb); [discriminate|]. eapply noself_cn; [eapply cn_hook; exact H | exact N].
+    - destruct ok; inversion H; subst; exact N.
+    - inversion H; subst; exact N.
+    - (* CreateClientProposal: the own name is refused *)
+      apply register_client_ok in H as (_ & Nn & _ & ->).
+      unfold noself. cbn [st_name st_clients set_clients]. rewrite aget_aset_other; [exact N | congruence].
+    - (* ToggleClientProposal: only an existing client can be toggled *)
+      unfold toggle_client in H. destruct (valid_name P name); cbn in H; [|discriminate].
+      destruct (aget name (st_clients s)) as [c0|] eqn:C0; [|discriminate].
+      destruct (c0 =? c); [discriminate|]. destruct ok; inversion H; subst.
+      unfold noself in *. cbn [st_name st_clients set_clients]. rewrite aget_aset_other; [exact N|].
+      intro E. rewrite <- E in C0. congruence.
+    - inversion H; subst; exact N.
+    - (* UpgradeClientProposal: the client table is unchanged *)
+      apply upgrade_client_ok in H; subst s'. exact N.
+  Qed.
+
+  Theorem run_noself ops : forall s, noself s -> noself (run P s ops).
+  Proof.
+    induction ops as [|o ops IH]; intros s N; cbn [run]; [exact N|]. apply IH.
+    unfold step. destruct (deliver P (fst o) s (snd o)) as [s'| |] eqn:D; cbn [fst]; try exact N.
+    eapply exec_noself; [exact N | exact (deliver_ok _ _ _ _ _ D)].
+  Qed.
+
+  (** the same for histories of multi-message transactions *)
+  Corollary run_txs_noself l s : noself s -> noself (run_txs P s l).
+  Proof. intro N. rewrite (proj1 (run_txs_as_run P l s)). apply run_noself; exact N. Qed.
+
+  (** and the client-creating proposal for the own name is refused in every state, changing nothing *)
+  Theorem create_own_name_refused env s c ok : step P s (env, ARegisterClient (st_name s) c ok) = (s, false).
+  Proof. apply step_rejected. intros s' H. cbn [exec] in H. rewrite register_own_name_refused in H. discriminate. Qed.
+End NoSelf.
